@@ -5,6 +5,7 @@ package signedexchange
 import (
 	"bytes"
 	"crypto/x509"
+	"net/http"
 	"time"
 
 	"github.com/WICG/webpackage/go/internal/vh"
@@ -160,4 +161,65 @@ func VH_C01_C09_Timestamps() {
 	default:
 		vh.Reach("expired")
 	}
+}
+
+// VH_C01_C10_FileMutation: an honestly signed exchange (1b1/1b2/1b3, 2-byte symbolic payload) is serialised with
+// Exchange.Write; then the FILE is mutated - single bits of the byte at position i flipped (bits 0,5,7 of every 25th position in the
+// quick tier, every bit of every 2nd position in the thorough tier), or the file truncated at i, or a byte inserted at i - re-read with ReadExchange and verified inside the window: no panic; if verification still
+// succeeds then URL, method, status, response headers and the returned payload are exactly the signed ones
+// (so every bit of the serialised file is either authenticated or irrelevant to what is handed back).
+func VH_C01_C10_FileMutation() {
+	vh.MustReach("rejected")
+	ver := sxVersions[vh.Choose(3)]
+	payload := vh.Bytes("payload", 2)
+	cert, certBytes, priv := sxKey(0)
+	e := NewExchange(ver, sxURL, "GET", http.Header{}, 200, http.Header{"Content-Type": []string{"text/html"}}, payload)
+	vh.Assume(e.MiEncodePayload(2) == nil)
+	vh.Assume(e.AddSignatureHeader(sxSigner(cert, priv, sxDate, sxExpires)) == nil)
+	var w vh.Sink
+	vh.Assume(e.Write(&w) == nil)
+	file := w.B
+	stride := 25
+	if vh.Tier() == 1 {
+		stride = 2
+	}
+	npos := (len(file) + stride - 1) / stride
+	i := vh.Choose(npos) * stride
+	var mutated []byte
+	switch vh.Choose(3) {
+	case 0:
+		// single-bit flips: bits {0, 5, 7} in the quick tier, every bit in the thorough tier (concrete masks: a
+		// symbolic byte inside the URL / structured-header text would drag net/url into symbolic territory)
+		masks := []byte{0x01, 0x20, 0x80}
+		if vh.Tier() == 1 {
+			masks = []byte{0x01, 0x02, 0x04, 0x08, 0x10, 0x20, 0x40, 0x80}
+		}
+		mutated = append([]byte{}, file...)
+		mutated[i] ^= masks[vh.Choose(len(masks))]
+	case 1:
+		mutated = append([]byte{}, file[:i]...)
+	case 2:
+		mutated = append([]byte{}, file[:i]...)
+		mutated = append(mutated, []byte{0x00, 'A'}[vh.Choose(2)])
+		mutated = append(mutated, file[i:]...)
+	}
+	var back *Exchange
+	var rerr error
+	var out []byte
+	var ok bool
+	p := vh.Try(func() {
+		back, rerr = ReadExchange(bytes.NewReader(mutated))
+		if rerr == nil {
+			fetch := func(u string) ([]byte, error) { return certBytes, nil }
+			out, ok = back.Verify(time.Unix(sxDate+5, 0), fetch, sxLogger())
+		}
+	})
+	vh.Assert(!p, "reading and verifying a mutated file does not panic")
+	if p || rerr != nil || !ok {
+		vh.Reach("rejected")
+		return
+	}
+	vh.Assert(back.Version == ver && back.RequestURI == sxURL && back.ResponseStatus == 200 && (ver == version.Version1b3 || back.RequestMethod == "GET"), "still verifies => URL, method and status are the signed ones")
+	vh.Assert(len(back.ResponseHeaders) == len(e.ResponseHeaders) && back.ResponseHeaders.Get("Content-Type") == "text/html" && back.ResponseHeaders.Get("Digest") == e.ResponseHeaders.Get("Digest") && back.ResponseHeaders.Get("Mi-Draft2") == e.ResponseHeaders.Get("Mi-Draft2"), "still verifies => response headers are the signed ones")
+	vh.Assert(bytes.Equal(out, payload), "still verifies => the payload handed back is the signed one")
 }
